@@ -70,7 +70,7 @@ def run(ctx):
             if s == main:
                 continue
             pc = ctx.pc_strs(f, T.by_stream[s][-1].blk)
-            ok = all(ctx._sat(d, r"will_forward_any\(.*\)=False") and ctx._sat(d, r"is_empty\(.*attr_names\(self\)(\.0)?\)=True") for d in pc)
+            ok = all(ctx._sat(d, r"will_forward_any\(.*\)=False") and ctx._sat(d, r"^len\(.*attr_names\(self\)(\.0)?\)=0$") for d in pc)
             ctx.ob("C08.G.no-loop-only-when-nothing-selected", f.key, "declarations-only template (stream _%s)" % s, ok, "emitted under %s" % [sorted(d) for d in pc])
     # ------------------------------------------------------------ forward filter arms
     f = ctx.fn(common.TOK % "attrs_field::MatchArms<'_>")
